@@ -518,4 +518,14 @@ def axis_length(repo: Repo) -> RuleRun:
 
 axis_length.rule_id = "C02.AXIS-LENGTH"
 
-RULES = [set_order, progress_flag, fixpoint_schedules, copy_carries_count, no_spurious_conflict, undefined_raises, grade_before_write, det_sources, neighbour_symmetry, axis_length]
+def grade_idempotent(repo: Repo) -> RuleRun:
+    """Grading the same mesh again gives the same counts for the chopped block and its propagated neighbours. Same rule as C01.GRADE-IDEMPOTENT."""
+    from ..report import rebrand
+    from . import c01
+
+    return rebrand(c01.grade_idempotent(repo), PROP, "C02.GRADE-IDEMPOTENT")
+
+
+grade_idempotent.rule_id = "C02.GRADE-IDEMPOTENT"
+
+RULES = [set_order, progress_flag, fixpoint_schedules, copy_carries_count, no_spurious_conflict, undefined_raises, grade_before_write, det_sources, neighbour_symmetry, axis_length, grade_idempotent]
